@@ -75,9 +75,12 @@ class RSAKey(PKey):
                 key_type=self.name,
                 cert_type="ssh-rsa-cert-v01@openssh.com",
             )
-            self.key = rsa.RSAPublicNumbers(
-                e=msg.get_mpint(), n=msg.get_mpint()
-            ).public_key(default_backend())
+            try:
+                self.key = rsa.RSAPublicNumbers(
+                    e=msg.get_mpint(), n=msg.get_mpint()
+                ).public_key(default_backend())
+            except ValueError:
+                raise SSHException("Invalid public key")
 
     @classmethod
     def identifiers(cls):
